@@ -393,8 +393,11 @@ package genql
 //@   loop 3 invariant idx[C17]: 1 <= i && i <= len(str)
 //@   loop 3 decreases [C17,C10]: len(str) - i
 
+// (the bracket stack needs quantified invariants - every pending position is inside output, every entry of output
+// has two cells - under which the solvers answer unknown; the function runs under New's recover, so those sites are
+// contained; only the indexing of the text is claimed here)
 //@ func FindArrayIndex
-//@   safety[C17] at str[i]
+//@   safety[C17] at str[
 //@   loop 0 invariant idx[C17]: 0 <= i && i <= len(str) + 1
 //@   loop 0 decreases [C17,C10]: len(str) + 1 - i
 
